@@ -30,6 +30,10 @@ fn sim_run(r: &Rendered) -> Obs {
     }
 }
 
+fn fnv(s: &str) -> u64 {
+    s.bytes().fold(0xcbf2_9ce4_8422_2325u64, |h, b| (h ^ b as u64).wrapping_mul(0x100_0000_01b3)) >> 7
+}
+
 fn real_eligible(r: &Rendered) -> bool {
     r.ids == "same"
 }
@@ -94,9 +98,11 @@ fn cmd_replay(args: &[String]) {
                         let e = st.entry(fam.clone()).or_insert(json!(0));
                         *e = json!(e.as_u64().unwrap_or(0) + 1);
                     }
-                    // the small families entirely, the big ones sampled
-                    let small = matches!(fam.as_str(), "portable" | "files" | "vars");
-                    let take = real_eligible(&r) && (i % real_every == 0 || (small && i % 2 == 0) || fam == "portable");
+                    // the small families half or entirely, the big ones sampled (by a hash of
+                    // the scenario, so that the sample does not depend on TLC's output order)
+                    let h = fnv(&format!("{}{}", j["argv"], j["sc"])) as usize;
+                    let small = matches!(fam.as_str(), "files" | "vars");
+                    let take = real_eligible(&r) && (h % real_every == 0 || (small && h % 2 == 0) || fam == "portable");
                     if take {
                         let obs = real::run(&r, &bin);
                         counters[2].fetch_add(1, Ordering::Relaxed);
@@ -111,7 +117,7 @@ fn cmd_replay(args: &[String]) {
                             }
                         }
                         let mut sm = samples.lock().unwrap();
-                        if sm.len() < 6 && i % 977 == 0 {
+                        if sm.len() < 6 && h % 97 == 0 {
                             sm.push(json!({"argv": j["argv"], "mode": "real", "stdout": obs.out, "status": obs.status, "sig": obs.sig}));
                         }
                     }
